@@ -627,6 +627,34 @@ def sym2(T):
     return C
 
 
+def replay_polar_forces(model):
+    """real PM6 forces (reverse mode) for SCl2 with one S-Cl bond exactly along z: net torque and force on the chlorine against a
+    central difference of the total energy."""
+    import torch
+    from seqm.seqm_functions.constants import Constants
+    from seqm.Molecule import Molecule
+    from seqm.ElectronicStructure import Electronic_Structure
+
+    torch.set_default_dtype(torch.float64)
+    sp = [17, 17, 16]
+    xyz = [[0.0, 0, 2.0], [1.9, 0.3, -0.6], [0.0, 0, 0]]
+
+    def run(c):
+        params = {"method": "PM6", "scf_eps": 1e-10, "scf_converger": [1], "sp2": [False, 1e-5], "elements": [0, 16, 17], "learned": [], "pair_outer_cutoff": 1e10, "eig": True}
+        mol = Molecule(Constants(), params, torch.tensor([c]), torch.tensor([sp]))
+        Electronic_Structure(params)(mol)
+        return float(mol.Etot[0]), mol.force.detach()[0]
+
+    E0, F = run(xyz)
+    tq = float(torch.linalg.cross(torch.tensor(xyz), F).sum(0).abs().max())
+    h = 1e-4
+    xp, xm = [list(r) for r in xyz], [list(r) for r in xyz]
+    xp[0][0] += h
+    xm[0][0] -= h
+    fd = -(run(xp)[0] - run(xm)[0]) / (2 * h)
+    return {"reproduced": bool(tq > 1e-4 or abs(float(F[0, 0]) - fd) > 1e-4), "input": "PM6 SCl2, one S-Cl bond exactly along +z", "net_torque_eV": tq, "F_x(Cl)_reverse_mode": float(F[0, 0]), "F_x(Cl)_central_difference": fd}
+
+
 def task_rotd_prologue(ctx):
     """GenerateRotationMatrix, direction cosines: (CA SB, SA SB, CB) is the (sign-flipped) bond vector -- exactly on the generic
     path, within the 1e-10 polar threshold on the path xy < 1e-10 -- and CA^2+SA^2 = CB^2+SB^2 = 1 on both."""
@@ -663,6 +691,14 @@ def task_rotd_prologue(ctx):
                 ctx.prove("polar@p%d.bond-direction[%d] within 1e-10 of -xij" % (p.path_id, k), (d <= tol) & (-d <= tol), pc=pc)
             else:
                 ctx.prove("generic@p%d.bond-direction[%d] = -xij" % (p.path_id, k), d == 0, pc=pc)
+        # the frame must FOLLOW the bond: on the tangent space of the unit sphere the derivative of the bond direction the frame is
+        # built around is minus the displacement (forces are obtained by differentiating through this code)
+        dl = [real("dx"), real("dy"), real("dz")]
+        tangent = (dl[0] * vx + dl[1] * vy + dl[2] * vz == 0)
+        for k in range(3):
+            lhs = sum(dl[j] * Sym(E.diff(E.node_of(bond[k]), (vx, vy, vz)[j].n)) for j in range(3))
+            ctx.prove("%s@p%d.frame-follows-the-bond-direction[%d]" % (br, p.path_id, k), lhs == -dl[k], pc=pc + [tangent],
+                      replay=(lambda m: replay_polar_forces(m)) if polar else None, classify=lambda m_, r: "polar-branch" if polar else "generic-orientation")
     if kinds != {"polar", "generic"}:
         ctx.error("paths", "expected generic and polar paths, got %r" % kinds)
     ctx.assume_note("unit input vector; the polar clause is a tolerance clause (the frame of a bond within 1e-10 rad of +-z is the frame of +-z)")
@@ -692,6 +728,36 @@ def _rotd_tables(ctx):
     return ex.paths[0].value, (ca, sa, cb, sb), nst
 
 
+def replay_rotd(model):
+    """real GenerateRotationMatrix at the model's direction: the d block against the representation induced by the p block"""
+    import math
+    import numpy as np
+    import torch
+    from seqm.seqm_functions.RotationMatrixD import GenerateRotationMatrix
+
+    torch.set_default_dtype(torch.float64)
+    t, u = model_float(model, "t", 0.37), abs(model_float(model, "u", 0.61)) or 0.61
+    ca, sa, cb, sb = (1 - t * t) / (1 + t * t), 2 * t / (1 + t * t), (1 - u * u) / (1 + u * u), 2 * u / (1 + u * u)
+    v = np.array([ca * sb, sa * sb, cb])
+    M = GenerateRotationMatrix(torch.tensor([(-v).tolist()]))[0].numpy()
+    INDX = [0, 1, 3, 6, 10, 15, 21, 28, 36]
+    P = np.array([M[0:3, INDX[K + 1]] for K in range(3)])
+    D = np.array([M[0:5, INDX[K + 4]] for K in range(5)])
+    s3 = math.sqrt(3)
+    A = {"x2-y2": np.diag([s3 / 2, -s3 / 2, 0]), "xz": np.array([[0, 0, s3 / 2], [0, 0, 0], [s3 / 2, 0, 0]]), "z2": np.diag([-0.5, -0.5, 1.0]),
+         "yz": np.array([[0, 0, 0], [0, 0, s3 / 2], [0, s3 / 2, 0]]), "xy": np.array([[0, s3 / 2, 0], [s3 / 2, 0, 0], [0, 0, 0]])}
+    F = [np.diag([1.0, -0.5, -0.5]), np.array([[0, s3 / 2, 0], [s3 / 2, 0, 0], [0, 0, 0]]), np.array([[0, 0, s3 / 2], [0, 0, 0], [s3 / 2, 0, 0]]), np.diag([0, s3 / 2, -s3 / 2]),
+         np.array([[0, 0, 0], [0, 0, s3 / 2], [0, s3 / 2, 0]])]
+    want = np.zeros((5, 5))
+    for m in range(5):
+        B = P.T @ F[m] @ P
+        for k, nm in enumerate(D_ORDER):
+            want[m, k] = (2 / 3) * np.trace(B @ A[nm])
+    err = np.abs(D - want)
+    return {"reproduced": bool(err.max() > 1e-9), "direction": v.tolist(), "max|D - induced representation|": float(err.max()), "worst entry (local, molecular)": [int(x) for x in np.unravel_index(err.argmax(), err.shape)],
+            "max|D D^T - 1|": float(np.abs(D @ D.T - np.eye(5)).max())}
+
+
 def task_rotd_tables(ctx):
     """GenerateRotationMatrix: (i) P is a proper rotation whose row 0 is the bond direction; (ii) D is the representation of that
     rotation on the five real d functions (D[m][k] = (2/3) tr(B_m A_k), B_m the canonical local form on the axes P[0..2]);
@@ -717,7 +783,7 @@ def task_rotd_tables(ctx):
         B = [[sum(F[m][a][b] * Pm[a][i] * Pm[b][j] for a in range(3) for b in range(3)) for j in range(3)] for i in range(3)]
         for k in range(5):
             want = Fraction(2, 3) * sum(B[i][j] * As[k][j][i] for i in range(3) for j in range(3))
-            ctx.prove_eq("D[%s,%s] is the d representation of P" % (names_l[m], D_ORDER[k]), Dm[m][k], want)
+            ctx.prove_eq("D[%s,%s] is the d representation of P" % (names_l[m], D_ORDER[k]), Dm[m][k], want, replay=replay_rotd, classify=lambda m_, r: "d-rotation-table")
     # pair-product table: T[mu][k] = coefficient of local function k in molecular function mu
     T = [[S(0)] * 9 for _ in range(9)]
     T[0][0] = S(1)
